@@ -15,8 +15,12 @@
    Every row between the top and the bottom vertex has a pixel, so the un-fused scanline iterator never stops early.
 
    Inside / Outside alignment with width 1: the implementation takes the same path (extents with thickness 1 is the line itself
-   for StrokeOffset::Left / Right as well - checked by the suites joinh_extents / join_tri_pixels), but the lemma
-   "parallels l 1 so" exists for StrokeOffset::None only (line builder), so the theorem is stated for Center.
+   for StrokeOffset::Left / Right as well: C19_join_extents_w1_any below, also checked by the suites joinh_extents /
+   join_tri_pixels); the statements for every alignment are at the end of this file.
+   RANGE: theorems with the hypothesis tri_big (+-2^29) are statements about the unbounded model; the i32 arithmetic of the
+   implementation (area_doubled, LinearEquation, the intersection denominator) agrees with it for vertices within +-V with
+   V + 14 <= 8191 (range_ok V 1 / tri_within V, the range of C01_join_*_range and of the C07 / C08 join theorems): the `_range`
+   forms at the end carry exactly that hypothesis and are the ones the tie to the code is claimed for.
    Inside alignment has one more case: when Triangle::is_collapsed holds (a degenerate join, or the inner corner of a join
    on the wrong side of the opposite edge: always for colinear triangles) every row is Triangle::scanline_intersection of the
    clockwise triangle painted in the stroke colour, i.e. the FILLED triangle between the (y,x)-sorted Bresenham edges (for a
@@ -25,6 +29,7 @@
    Polylines: width <= 1 never reaches this machinery (polyline/styled.rs: draw_iter over points(), StyledIter::Thin), so
    there is no `polyline_w1_is_thin` statement to make here; it is C19_polyline_* of the tri builder. *)
 From EG Require Import Base.Prelude Model.Geometry Model.Line Model.Thickline Model.Join Model.JoinTri.
+From EG Require Proofs.JoinRange Proofs.JoinW1All.
 From EG Require Import Proofs.Join Proofs.JoinTri Proofs.JoinW1 Proofs.JoinTriDraw Proofs.JoinOutline Proofs.JoinOutlineAny Proofs.JoinCollapsed Proofs.JoinW1Collapsed Proofs.JoinW1Line.
 Set Default Timeout 60.
 
@@ -99,7 +104,8 @@ Theorem C19_join_tri_edge_w1_any : forall so ct idx y,
   Some (bresenham_intersection (sl_new_empty y) (L (vtx ct (idx + 1)) (vtx ct (idx + 2)))).
 Proof. exact jt_edge_scanline_w1_any. Qed.
 
-(* Triangle::is_collapsed never leaves the modelled arithmetic for width 1 *)
+(* the model of Triangle::is_collapsed is defined for width 1 (the fuel of the parallels iterator suffices); superseded by
+   C19_join_is_collapsed_w1 below, which gives its value *)
 Theorem C19_join_is_collapsed_w1_defined : forall so a b c,
   pt_in_i32 a = true -> pt_in_i32 b = true -> pt_in_i32 c = true ->
   exists r, jt_is_collapsed (a, b, c) 1 so = Some r.
@@ -129,10 +135,12 @@ Theorem C19_join_w1_inside_case_nonvacuous : w1_outline_case (P 0 0, P 20 0, P 0
 Proof. exact w1_inside_not_collapsed. Qed.
 
 (* ---- the collapsed Inside stroke (Proofs/JoinCollapsed.v), any width >= 1, with or without a fill colour: pixels() is, as a
-   set, the rows of Triangle::scanline_intersection of the clockwise triangle between the top and the bottom vertex - the rows
-   Triangle::points() is made of - every item in the stroke colour.  With width 1 only degenerate (colinear / coincident)
+   set, the rows of Triangle::scanline_intersection of the clockwise triangle between the top and the bottom vertex (the same
+   function Triangle::points() iterates; no formal link to the points() model is stated here), every item in the stroke colour.  With width 1 only degenerate (colinear / coincident)
    triangles collapse, and the rows are those of the single Bresenham line between the first and the last vertex in (y,x) order.
-   With C19_join_tri_outline_w1_any this describes the width-1 stroke of every triangle and every alignment.
+   With C19_join_tri_outline_w1_any this gives, as a SET of points, the width-1 stroke-only (fill = None) pixels() of every
+   triangle and every alignment; order and multiplicity are not stated here, and with a fill colour only the C01 / C02
+   consequences are proved (C01_join_triangle_pixels_draw_w1_all, C02_join_triangle_w1_all_drawn_in_bbox).
    tylo / tyhi = smallest / largest vertex y. *)
 Theorem C19_join_collapsed_inside_pixels : forall t w fill, tri_big t -> 0 < w ->
   jt_is_collapsed (jt_sorted_clockwise t) w SORight = Some true ->
@@ -152,7 +160,7 @@ Proof. exact collapsed_inside_exists. Qed.
    w1_outline_case holds for EVERY proper triangle and every alignment, and clause 6 reads: the 1 px outline of a triangle with
    non-zero area is the union of its three edge lines, for Inside, Center and Outside alignment alike; a triangle without area
    (colinear / coincident vertices) is the same three lines for Center and Outside and the rows of scanline_intersection - the
-   single Bresenham line between its extreme vertices - for Inside (C19_join_collapsed_inside_pixels). *)
+   single Bresenham line between its extreme vertices, C19_join_flat_inside_w1_is_line - for Inside. *)
 Theorem C19_join_is_collapsed_w1 : forall so t, tri_big t ->
   jt_is_collapsed (jt_sorted_clockwise t) 1 so = Some (jt_area_doubled t =? 0).
 Proof. exact jt_is_collapsed_w1_iff_degenerate. Qed.
@@ -169,10 +177,35 @@ Theorem C19_join_tri_outline_w1_proper : forall t al, tri_big t -> jt_area_doubl
 Proof. exact tri_outline_w1_proper. Qed.
 
 (* ... and the remaining case made explicit: a triangle WITHOUT area with a stroke of width 1 and Inside alignment paints exactly
-   the Bresenham line between its first and last vertex in (y,x) order (its three edge lines degenerate to that one line) *)
+   the Bresenham line between its first and last vertex in (y,x) order.  This is NOT in general the union of the three directed
+   edge lines that Center / Outside paint for the same vertices (Bresenham ties differ with direction; notes/audit2/C19.md counts
+   160 of 9000 colinear samples where they differ): read literally, clause 6 does not hold for flat triangles with Inside
+   alignment, and the theorem states what the code does instead (reported as an observation, DESIGN 10.4; the property text is
+   about triangles, which have area). *)
 Theorem C19_join_flat_inside_w1_is_line : forall t fill, tri_big t -> jt_area_doubled t = 0 ->
   let '(p1, p2, p3) := jt_sorted_yx (jt_sorted_clockwise t) in
   exists px, jt_pixels t 1 Style.Inside fill = Some px /\
     (forall pc, In pc px -> snd pc = 1) /\
     (forall p, In p (map fst px) <-> In p (line_points (L p1 p3))).
 Proof. exact flat_inside_w1_is_line. Qed.
+
+(* ---- the machine range: vertices within +-V with V + 14 <= 8191, where the i32 arithmetic of the implementation agrees with
+   the model; these are the forms the tie to the code is claimed for ------------------------------------------------------- *)
+Theorem C19_join_tri_outline_w1_proper_range : forall V t al, Proofs.JoinRange.range_ok V 1 -> Proofs.JoinRange.tri_within V t ->
+  jt_area_doubled t <> 0 ->
+  let '(a, b, c) := jt_sorted_clockwise t in
+  exists px, jt_pixels t 1 al None = Some px /\
+    (forall pc, In pc px -> snd pc = 1) /\
+    (forall p, In p (map fst px) <-> In p (line_points (L b c)) \/ In p (line_points (L c a)) \/ In p (line_points (L a b))).
+Proof. exact Proofs.JoinW1All.tri_outline_w1_proper_range. Qed.
+
+Theorem C19_join_flat_inside_w1_is_line_range : forall V t fill, Proofs.JoinRange.range_ok V 1 -> Proofs.JoinRange.tri_within V t ->
+  jt_area_doubled t = 0 ->
+  let '(p1, p2, p3) := jt_sorted_yx (jt_sorted_clockwise t) in
+  exists px, jt_pixels t 1 Style.Inside fill = Some px /\
+    (forall pc, In pc px -> snd pc = 1) /\
+    (forall p, In p (map fst px) <-> In p (line_points (L p1 p3))).
+Proof. exact flat_inside_w1_is_line_range. Qed.
+
+Example C19_join_range_nonvacuous : Proofs.JoinRange.range_ok 8000 1 /\ Proofs.JoinRange.tri_within 8000 (P 0 0, P 20 0, P 0 20).
+Proof. split; [unfold Proofs.JoinRange.range_ok, Proofs.JoinRange.rbound; lia | unfold Proofs.JoinRange.tri_within, Proofs.JoinRange.within; cbn; lia]. Qed.
